@@ -679,7 +679,12 @@ type Number float64
 func (n Number) Member(string) Object { return Nil{} }
 
 // String formatter
-func (n Number) String() string     { return big.NewFloat(float64(n)).String() }
+func (n Number) String() string {
+	if n == 0 {
+		return "0" // negative zero prints as 0, like ECMAScript's Number::toString
+	}
+	return big.NewFloat(float64(n)).String()
+}
 func (n Number) copy() Object       { return n }
 func (n Number) iface() interface{} { return n }
 
